@@ -20,3 +20,5 @@ OBS += [
 for un_, tier_ in [('pool_s1_c10_i4', 'quick'), ('pool_s1_c16_i4', 'quick')]:
     OBS.append(Ob(['C19', 'C06', 'C04'], 'free_alloc_' + un_, un_, 'harness/pool.c', 'h_pool_free_alloc', defs=['UNIT_H="%s.h"' % un_], unwind=8, tier=tier_, cap=200, hunwind=12,
         desc='freeSlot(getSlot(id)) then allocSlot on %s: same slot, same id, id %% capacity / id / capacity addressing, no allocator call' % un_, bound='1..4 pools, every id in use'))
+for ht_, nm_ in [(0, 'inline'), (1, 'heap')]:
+    OBS.append(Ob(['C04', 'C03', 'C06', 'C19'], 'pool_shrink_' + nm_, PU, 'harness/pool.c', 'h_pool_shrink', defs=['UNIT_H="%s.h"' % PU, 'HEAPT=%d' % ht_], unwind=6, cap=200, desc='MemoryPoolList::shrinkToFit from any valid table state (%s table): recorded capacity == entries of the kept block, last pool trimmed to its usage' % nm_, bound='count <= 3 pools, every capacity the growth rule can produce, every usage'))
